@@ -1364,6 +1364,7 @@ def shortest_int(data: np.ndarray, percent: float=50) -> tuple[float, float]:
         )  # Difference between two elements of an array separated by a distance 'lag'
 
         data = np.sort(data)
+        data = data.astype(np.result_type(data, float))  # integer samples: the differences below must not wrap around
         lag = int(len(data) * percent/100)
         diff = diff_lag(data, lag)
         i = np.where(np.abs(diff - np.min(diff)) < 1e-10)[0]
